@@ -29,7 +29,7 @@ PLAN["C10"] = {
         _c10_att("attacks_black_u3", 3, ("thorough",), 3600, 12),
         Inst("c10::lemma_piece_at", sub="C10.c", unwind=8, timeout=600, functions=("Board::piece_at", "Board::occupancy", "Board::vacancy", "Board::new"),
              bounds="arbitrary placement, symbolic square; no bound"),
-        Inst("c10::order_and_clone_independence", sub="C10.b", unwind=8, unwindset=(("from_occupancy#0", 3),), timeout=1800, mem_gb=16,
+        Inst("c10::order_and_clone_independence", sub="C10.b", tiers=("thorough",), unwind=8, unwindset=(("from_occupancy#0", 3),), timeout=1800, mem_gb=16,
              functions=_c10_fn + ("<Board as Clone>::clone", "<Board as PartialEq>::eq"), stubs=GEO_STUBS,
              bounds="<= 1 man per kind and colour; program [clone] q1 [clone] q2 q2 with symbolic queries q1, q2 from {4 attack-set queries, 2 check queries} and symbolic clone points"),
         Inst("c10::reach_witness", sub="vacuity", unwind=8, unwindset=(("from_occupancy#0", 3),), timeout=600, expect="fail"),
@@ -68,7 +68,7 @@ PLAN["C14"] = {
     "exhaustive": False,
     "bounds": "SAN: every valid UTF-8 string of <= 6 bytes (quick) / <= 8 bytes (thorough); Square::try_from: <= 4 bytes; FEN: the "
               "field parsers behind the regex gate on every input the gate admits, placement = a concrete run of 31 (resp. 7) eights followed by every symbolic "
-              "tail <= 16 (18) bytes (quick); every placement <= 24 / <= 48 bytes and 54-byte digit floods (thorough); castling field <= 4 bytes",
+              "tail of 15/16 (18) bytes (quick); every placement <= 24 / <= 48 bytes and 54-byte digit floods (thorough); castling field <= 4 bytes",
     "outside": ["the UCI command loop (Client::exec owns stdin and spawns threads)", "the regex gate itself (Regex::new at run time)",
                 "longer strings"],
     "trusted": ["rustc / kani-compiler / CBMC", "regex crate: only strings matching FEN_REGEX reach the field parsers"],
@@ -78,17 +78,20 @@ PLAN["C14"] = {
         Inst("c14::san_any_string_le6", sub="C14 SAN", unwind=9, timeout=1800, mem_gb=8, functions=_c14_fn, bounds="all valid UTF-8 strings <= 6 bytes"),
         Inst("c14::san_any_string_le8", sub="C14 SAN", tiers=("thorough",), unwind=11, timeout=7200, mem_gb=16, functions=_c14_fn, bounds="all valid UTF-8 strings <= 8 bytes"),
         Inst("c14::square_any_string_le4", sub="C14 square", unwind=7, timeout=600, functions=("Square::try_from(&str)", "File::from_char", "Rank::from_char"), bounds="all valid UTF-8 strings <= 4 bytes"),
-        Inst("c14::fen_placement_flood31_tail16", sub="C14 FEN", unwind=50, unwindset=(("Board as core::convert::From", 66), ("fen_placement_after_flood", 18)), timeout=3600, mem_gb=12,
+        Inst("c14::fen_placement_flood31_tail15", sub="C14 FEN", unwind=50, unwindset=(("Board as std::convert::From", 66), ("fen_placement_after_flood", 18)), timeout=3600, mem_gb=12,
              functions=("Board::try_parse (via hook)", "PieceIndex::try_parse", "Board::from(&ArrayMap)", "Square::try_from(u8)"),
-             bounds="thirty-one '8's followed by every tail <= 16 bytes over the regex alphabet with 7 slashes"),
-        Inst("c14::fen_placement_flood7_tail18", sub="C14 FEN", unwind=28, unwindset=(("Board as core::convert::From", 66), ("fen_placement_after_flood", 20)), timeout=3600, mem_gb=12,
+             bounds="thirty-one '8's followed by every tail of 15 bytes over the regex alphabet with 7 slashes"),
+        Inst("c14::fen_placement_flood31_tail16", sub="C14 FEN", unwind=50, unwindset=(("Board as std::convert::From", 66), ("fen_placement_after_flood", 18)), timeout=3600, mem_gb=12,
              functions=("Board::try_parse (via hook)", "PieceIndex::try_parse", "Board::from(&ArrayMap)", "Square::try_from(u8)"),
-             bounds="seven '8's followed by every tail <= 18 bytes over the regex alphabet with 7 slashes"),
-        Inst("c14::fen_placement_le24", sub="C14 FEN", tiers=("thorough",), unwind=26, unwindset=(("Board as core::convert::From", 66), ("from_rS", 66)), timeout=3600, mem_gb=12,
+             bounds="thirty-one '8's followed by every tail of 16 bytes over the regex alphabet with 7 slashes"),
+        Inst("c14::fen_placement_flood7_tail18", sub="C14 FEN", unwind=28, unwindset=(("Board as std::convert::From", 66), ("fen_placement_after_flood", 20)), timeout=3600, mem_gb=12,
+             functions=("Board::try_parse (via hook)", "PieceIndex::try_parse", "Board::from(&ArrayMap)", "Square::try_from(u8)"),
+             bounds="seven '8's followed by every tail of 18 bytes over the regex alphabet with 7 slashes"),
+        Inst("c14::fen_placement_le24", sub="C14 FEN", tiers=("thorough",), unwind=26, unwindset=(("Board as std::convert::From", 66), ("from_rS", 66)), timeout=3600, mem_gb=12,
              functions=("Board::try_parse (via hook)", "PieceIndex::try_parse", "Board::from(&ArrayMap)", "Square::try_from(u8)"), bounds="placement fields <= 24 bytes over the regex alphabet, 7 slashes"),
-        Inst("c14::fen_placement_le48", sub="C14 FEN", tiers=("thorough",), unwind=50, unwindset=(("Board as core::convert::From", 66),), timeout=7200, mem_gb=16,
+        Inst("c14::fen_placement_le48", sub="C14 FEN", tiers=("thorough",), unwind=50, unwindset=(("Board as std::convert::From", 66),), timeout=7200, mem_gb=16,
              functions=("Board::try_parse (via hook)", "PieceIndex::try_parse", "Board::from(&ArrayMap)", "Square::try_from(u8)"), bounds="placement fields <= 48 bytes over the regex alphabet, 7 slashes"),
-        Inst("c14::fen_placement_digit_flood", sub="C14 FEN", tiers=("thorough",), unwind=56, unwindset=(("Board as core::convert::From", 66),), timeout=3600, mem_gb=12,
+        Inst("c14::fen_placement_digit_flood", sub="C14 FEN", tiers=("thorough",), unwind=56, unwindset=(("Board as std::convert::From", 66),), timeout=3600, mem_gb=12,
              functions=("Board::try_parse (via hook)", "Board::from(&ArrayMap)"), bounds="54-byte placement fields: a run of 40 digits then seven one-digit ranks, all digits symbolic"),
         Inst("c14::fen_castle_field", sub="C14 FEN", unwind=7, timeout=600, functions=("ArrayMap<Color, CastleRights>::try_parse (via hook)",), bounds="castling fields <= 4 bytes of [KQkq|]"),
         Inst("c14::reach_witness", sub="vacuity", unwind=7, timeout=600, expect="fail"),
@@ -207,23 +210,40 @@ PLAN["C01"] = {
         _c01_filter("filter_pawn_black_u3", 3, ("thorough",), 7200, 16),
         Inst("c01::lemma_legal_moves_are_candidates", sub="C01 glue", timeout=1800, mem_gb=8, functions=("(reference only: rules::legal_ref, rules::gen_pseudo)",),
              bounds="any legal position, any coordinates; no bound"),
-        _c01_gen("gen_kk_white", 1, 8, ("quick", "thorough"), 3600, 10, 8),
-        _c01_gen("gen_kk_black", 1, 8, ("quick", "thorough"), 3600, 10, 8),
-        _c01_gen("gen_kn_k_white", 1, 8, ("quick", "thorough"), 3600, 10, 16),
-        _c01_gen("gen_kn_k_black", 1, 8, ("quick", "thorough"), 3600, 10, 16),
-        _c01_gen("gen_kn_kn_white", 1, 8, ("thorough",), 3600, 10, 16),
-        _c01_gen("gen_kr_k_white", 1, 14, ("thorough",), 7200, 12, 22),
-        _c01_gen("gen_kr_k_black", 1, 14, ("thorough",), 7200, 12, 22),
-        _c01_gen("gen_kb_k_white", 1, 13, ("thorough",), 7200, 12, 21),
-        _c01_gen("gen_kb_k_black", 1, 13, ("thorough",), 7200, 12, 21),
-        _c01_gen("gen_kq_k_white", 1, 27, ("thorough",), 10800, 16, 35),
-        _c01_gen("gen_kq_k_black", 1, 27, ("thorough",), 10800, 16, 35),
-        _c01_gen("gen_kp_kn_white", 1, 8, ("quick", "thorough"), 3600, 10, 16),
-        _c01_gen("gen_kp_kn_black", 1, 8, ("quick", "thorough"), 3600, 10, 16),
-        _c01_gen("gen_kp_kp_ep_white", 1, 8, ("quick", "thorough"), 3600, 10, 12),
-        _c01_gen("gen_kp_kp_ep_black", 1, 8, ("quick", "thorough"), 3600, 10, 12),
-        _c01_gen("gen_castle_white", 2, 14, ("quick", "thorough"), 7200, 12, 40),
-        _c01_gen("gen_castle_black", 2, 14, ("quick", "thorough"), 7200, 12, 40),
+        _c01_gen("gen_kk_white_sound", 1, 8, ('quick', 'thorough'), 3600, 12, 8),
+        _c01_gen("gen_kk_white_complete", 1, 8, ('quick', 'thorough'), 3600, 12, 8),
+        _c01_gen("gen_kk_black_sound", 1, 8, ('thorough',), 3600, 12, 8),
+        _c01_gen("gen_kk_black_complete", 1, 8, ('thorough',), 3600, 12, 8),
+        _c01_gen("gen_kn_k_white_sound", 1, 8, ('thorough',), 3600, 12, 16),
+        _c01_gen("gen_kn_k_white_complete", 1, 8, ('thorough',), 3600, 12, 16),
+        _c01_gen("gen_kn_k_black_sound", 1, 8, ('quick', 'thorough'), 3600, 12, 16),
+        _c01_gen("gen_kn_k_black_complete", 1, 8, ('quick', 'thorough'), 3600, 12, 16),
+        _c01_gen("gen_kn_kn_white_sound", 1, 8, ('thorough',), 3600, 12, 16),
+        _c01_gen("gen_kn_kn_white_complete", 1, 8, ('thorough',), 3600, 12, 16),
+        _c01_gen("gen_kr_k_white_sound", 1, 14, ('thorough',), 7200, 14, 22),
+        _c01_gen("gen_kr_k_white_complete", 1, 14, ('thorough',), 7200, 14, 22),
+        _c01_gen("gen_kr_k_black_sound", 1, 14, ('thorough',), 7200, 14, 22),
+        _c01_gen("gen_kr_k_black_complete", 1, 14, ('thorough',), 7200, 14, 22),
+        _c01_gen("gen_kb_k_white_sound", 1, 13, ('thorough',), 7200, 14, 21),
+        _c01_gen("gen_kb_k_white_complete", 1, 13, ('thorough',), 7200, 14, 21),
+        _c01_gen("gen_kb_k_black_sound", 1, 13, ('thorough',), 7200, 14, 21),
+        _c01_gen("gen_kb_k_black_complete", 1, 13, ('thorough',), 7200, 14, 21),
+        _c01_gen("gen_kq_k_white_sound", 1, 27, ('thorough',), 10800, 16, 35),
+        _c01_gen("gen_kq_k_white_complete", 1, 27, ('thorough',), 10800, 16, 35),
+        _c01_gen("gen_kq_k_black_sound", 1, 27, ('thorough',), 10800, 16, 35),
+        _c01_gen("gen_kq_k_black_complete", 1, 27, ('thorough',), 10800, 16, 35),
+        _c01_gen("gen_kp_kn_white_sound", 1, 8, ('quick', 'thorough'), 3600, 14, 16),
+        _c01_gen("gen_kp_kn_white_complete", 1, 8, ('quick', 'thorough'), 3600, 14, 16),
+        _c01_gen("gen_kp_kn_black_sound", 1, 8, ('thorough',), 3600, 14, 16),
+        _c01_gen("gen_kp_kn_black_complete", 1, 8, ('thorough',), 3600, 14, 16),
+        _c01_gen("gen_kp_kp_ep_white_sound", 1, 8, ('thorough',), 3600, 14, 12),
+        _c01_gen("gen_kp_kp_ep_white_complete", 1, 8, ('thorough',), 3600, 14, 12),
+        _c01_gen("gen_kp_kp_ep_black_sound", 1, 8, ('quick', 'thorough'), 3600, 14, 12),
+        _c01_gen("gen_kp_kp_ep_black_complete", 1, 8, ('quick', 'thorough'), 3600, 14, 12),
+        _c01_gen("gen_castle_white_sound", 2, 14, ('quick', 'thorough'), 7200, 16, 40),
+        _c01_gen("gen_castle_white_complete", 2, 14, ('quick', 'thorough'), 7200, 16, 40),
+        _c01_gen("gen_castle_black_sound", 2, 14, ('thorough',), 7200, 16, 40),
+        _c01_gen("gen_castle_black_complete", 2, 14, ('thorough',), 7200, 16, 40),
         Inst("c01::reach_witness", sub="vacuity", unwind=10, nomem=True, timeout=1800, expect="fail",
              unwindset=(("expand_moves", 10), ("compute_pawn_moves", 6), ("compute_knight_moves", 3), ("compute_bishop_moves", 3), ("compute_rook_moves", 3),
                         ("compute_queen_moves", 3), ("compute_king_moves", 4), ("from_occupancy#0", 3), ("from_occupancy#1", 8), ("piece_at#0", 8), ("piece_at#1", 4), ("family", 6))),
@@ -301,7 +321,7 @@ PLAN["C05"] = {
 PLAN["C05"]["insts"][-1].expect = "fail"
 
 _c13 = []
-for fam, men, mode, tiers in (("krk_btm", 1, 0, ("quick", "thorough")), ("kqk_wtm", 1, 0, ("thorough",)), ("kpk_btm", 1, 0, ("quick", "thorough")),
+for fam, men, mode, tiers in (("krk_btm", 1, 0, ("quick", "thorough")), ("kqk_wtm", 1, 0, ("quick", "thorough")), ("kpk_btm", 1, 0, ("thorough",)),
                               ("kbnk_btm", 2, 0, ("thorough",)), ("kpkp_wtm", 2, 1, ("quick", "thorough")), ("kppk_wtm", 2, 1, ("thorough",)),
                               ("krkn_btm", 2, 1, ("thorough",)), ("kqkb_wtm", 2, 1, ("thorough",)), ("kbpkn_wtm", 3, 1, ("thorough",))):
     for which in ("negation", "mirror"):
